@@ -376,6 +376,11 @@ def deser(d):
     return d['kind'], [cx(p) for p in d['points']]
 
 
+def has_tiny_denom(sercase):
+    cs = sercase['segments'] if sercase['kind'] == 'path' else [sercase]
+    return any(c['kind'] == 'cubic' and tiny_denom(deser(c)[1]) for c in cs)
+
+
 def gen_case(rng):
     k = rng.choice(['line', 'quad', 'quad', 'cubic', 'cubic', 'cubic', 'cubic', 'arc', 'arc', 'arc', 'path'])
     if k == 'line': d, m = gen_line(rng)
@@ -418,6 +423,11 @@ def run(rep, tier, seed, replay=None):
             else:
                 k, d = deser(c); todo.append((k, d, 'replay'))
         else:
+            # hand-picked: a quadratic written as a cubic (degree elevation); cubic coefficient ~1e-14
+            q = [-99.81684816601224 - 94.61705857858904j, 97.53500247585552 + 47.20998662855288j,
+                 -98.00181415191666 + 12.90781526648037j]
+            todo.append(('cubic', [q[0], q[0] + 2 / 3 * (q[1] - q[0]), q[2] + 2 / 3 * (q[1] - q[2]), q[2]],
+                         'corpus/elevated-quadratic'))
             for _ in range(n):
                 todo.append(gen_case(rng))
         cases, meta = [], []
@@ -474,7 +484,7 @@ def run(rep, tier, seed, replay=None):
             if res is not None:
                 what, detail = res
                 key = 'bbox-%s-%s' % (what, kind)
-                if kind == 'cubic' and tiny_denom(deser(sercase)[1]):
+                if has_tiny_denom(sercase):
                     key = 'bbox-cubic-tiny-denom-cancellation'
                 vkeys[key] = vkeys.get(key, 0) + 1
                 rep.violation('C08: %s bbox() is %s: %s' % (kind, what.replace('-', ' '), detail),
@@ -483,7 +493,7 @@ def run(rep, tier, seed, replay=None):
                               key=key)
             elif i in failed_idx:
                 key = 'corr-%s' % kind
-                if kind == 'cubic' and tiny_denom(deser(sercase)[1]):
+                if has_tiny_denom(sercase):
                     key = 'bbox-cubic-tiny-denom-cancellation'
                 vkeys[key] = vkeys.get(key, 0) + 1
                 rep.violation('C08: %s (difference above 1e-9*size although 257 samples are inside and the sides '
